@@ -58,7 +58,8 @@ def run_tasklist(ctx, duck, strain, keys, case, tl=None):
             tl = tasks.PhononContributionTaskList(duck)
         P.create = classmethod(counting)
         try:
-            ctx.observe(tl.resolve, np.array(strain, dtype=float), ckeys, _bucket="C04/resolve", _case=case)
+            sarr = np.asarray(strain)
+            ctx.observe(tl.resolve, sarr if sarr.dtype.kind == "i" else np.array(strain, dtype=float), ckeys, _bucket="C04/resolve", _case=case)
         finally:
             P.create = orig
         ctx.observe(tl.calculate, _bucket="C04/calculate", _case=case)
@@ -203,6 +204,12 @@ def oracle(ctx, full):
     i2, a2, tl2 = run_tasklist(ctx, DuckCalculator(full), strain, list(reversed(keys)), case)
     check_order(tl2, case)
     compare(iso, i2, keys, keys, scale, "C04/order-dependence", "request order reversed", case, rel=rel)
+    # the same strain field handed over as whole numbers (int64 array; only the ratios e1:e2:e3 enter): same tensor
+    s8 = strain * 8.0
+    if full.get("strain_class") != "near-equal" and np.all(s8 == np.round(s8)):
+        i5, a5, _ = run_tasklist(ctx, DuckCalculator(full), s8.astype(np.int64), keys, case)
+        compare(iso, i5, keys, keys, scale, "C04/strain-dtype", "strain field given as an integer array (8 x the fractions)", case, rel=rel)
+        compare(adi, a5, keys, keys, scale, "C04/strain-dtype", "strain field given as an integer array (adiabatic)", case, rel=rel)
     # (e) axis relabelling
     perm = full["perm"]
     if perm != [0, 1, 2]:
